@@ -93,4 +93,8 @@ NoDeadlock ==
   AllDone \/ ENABLED ((\E c \in Clients : Begin(c) \/ GetRead(c) \/ OpDone(c) \/ Send(c)) \/ WRecv \/ WGetWrite \/ WRelease)
 
 LockOK == ~(writer /\ readers # {})
+
+\* C13 / C08 (liveness, under weak fairness of the next-state relation): every request is processed
+\* and every client finishes
+Termination == <>[]AllDone
 =============================================================================
